@@ -566,10 +566,12 @@ def judge_any_probe(ctx, cfg, n, report_known=True, extra_docs=()):
                 lit = bytes(int(x) for x in m.group(1).split(',')).decode('latin-1')
                 small = re.fullmatch(r'-?\d+', lit) and -2**63 <= int(lit) <= 2**64 - 1 and lit != '-0'
                 return m.group(0) if small else 'NUM'
-            tside = re.sub(r'Map\(\[\(Str\(\[%s\]\),Str\(\[([0-9,]*)\]\)\)\]\)' % ','.join(str(c) for c in b'$serde_json::private::Number'), tok, parts[2])
+            TOKMAP = r'Map\(\[\(Str\(\[%s\]\),Str\(\[([0-9,]*)\]\)\)\]\)' % ','.join(str(c) for c in b'$serde_json::private::Number')
+            tside = re.sub(TOKMAP, tok, parts[2])
             def big(m):
                 return m.group(0) if -2**63 <= int(m.group(2)) <= 2**64 - 1 else 'NUM'
-            vside = re.sub(r'F(\(\d+\))?', 'NUM', parts[0])
+            vside = re.sub(TOKMAP, tok, parts[0])        # the Value route, too, falls back to the token map (a literal that is no u64 / i64 / u128 / canonical f64)
+            vside = re.sub(r'F(\(\d+\))?', 'NUM', vside)
             vside = re.sub(r'\b([IU])\((-?\d+)\)', big, vside)
             if vside == tside or vside.replace('I(0)', 'NUM') == tside:
                 cls = 'ap-number-transported-as-token-map'
